@@ -254,9 +254,9 @@ def typeof(e, env, sc):
         t = typeof(e[1][0], env, sc)
         for x in e[1][1:]:
             t = unify(t, typeof(x, env, sc))
-        if conc(t) != 'QString':
-            raise IllTyped('only string lists are modelled')
-        return 'QStringList'
+        if conc(t) in ('cnull', 'cempty'):
+            raise IllTyped('array of undetermined element type')
+        return 'QStringList' if conc(t) == 'QString' else 'list:' + conc(t)
     if k == 'cast':
         s, t = conc(typeof(e[1], env, sc)), e[2]
         if s == t:
